@@ -34,11 +34,17 @@ import vlib
 from checks import C07
 
 BE = dict(Period=2, MaxBlocks=3, MaxTx=1, MaxEv=1, Frac=2, ZeroPenaltyUnlisted="FALSE", MaxFlips=0,
-          ReorgRewritesLookups="TRUE", ExecBeforeSwitchBack="FALSE", GenMode='"none"')
+          ReorgRewritesLookups="TRUE", ExecBeforeSwitchBack="FALSE", SwitchAt=0, RoundBack=2, ParamsPerBlock="TRUE",
+          GenMode='"none"')
+# a protocol-version switch in block 1 (parameters in force change two rounds later), import in batches
+BE_UPGRADE = dict(BE, MaxBlocks=4, MaxEv=0, SwitchAt=1)
 # the importing node switches to a sibling branch and back (period 3: a pending transaction, the switch, the period end)
 BE_REORG = dict(BE, Period=3, MaxBlocks=5, MaxEv=0, MaxFlips=1)
 OPTS_REORG3 = {"period": 3, "mrp": 1, "wdelay": 1, "inact": 2}
 OPTS_TIGHT = {"gaslimit": 100000}          # a block that holds four plain transfers
+# genesis at protocol version 4 with scaled upgrade parameters: the header version switches to 5 in block 3, the version-5
+# parameters apply from block 11 on (eight rounds later)
+OPTS_UPGRADE = {"v4": 1}
 OPTS_SMALL = {"period": 2, "mrp": 1, "wdelay": 1, "inact": 2}
 OPTS_DEFAULT = {}
 
@@ -309,6 +315,35 @@ def reorg_scenario():
             blk(), blk(), blk()]
 
 
+def upgrade_scenario(batch):
+    """A chain through the protocol upgrade with version-dependent execution on both sides of the point where the new
+    parameters apply (a validator creation costs 900 000 gas more from version 5 on; failed staking transactions; deposits,
+    delegations), imported by the other node in batches of `batch` blocks per InsertChain call (-1 = all at once)."""
+    tx = C07.tx
+
+    def blk(*txs):
+        return dict(cb="g1", txs=list(txs))
+    h = [blk(tx("transfer", x=3)), blk(tx("create", a="n1", v="n1", x=37, f=3, c=1000), tx("garbage")),
+         blk(tx("update", a="g2", v="g2", f=1, c=1000)), blk(), blk(tx("deposit", a="g2", v="g2", x=15)), blk(),
+         blk(tx("dadd", a="u1", v="g2", x=25)), blk(), blk(tx("garbage", a="u2")), blk(tx("transfer", x=1)),
+         blk(tx("create", a="n2", v="n2", x=15, f=3), tx("garbage", a="u3")),
+         blk(tx("deposit", a="g3", v="g3", x=5), tx("dadd", a="u2", v="n1", x=15)),
+         blk(tx("create", a="u3", v="n2", x=15, f=3, z="op")), blk(), blk(tx("withdraw", a="g1", v="g1", b="u3", x=33))] \
+        + [blk() for _ in range(5)]
+    h[0]["batch"] = batch
+    return h
+
+
+def batched(h, batch):
+    """The same history (without evidences and fork switches) imported in batches."""
+    h = json.loads(json.dumps(h))
+    for b in h:
+        b.pop("ev", None)
+        b.pop("rg", None)
+    h[0]["batch"] = batch
+    return h
+
+
 def miner_stage(ctx, sim, rnd):
     """The REAL miner (miner.NewMiner, worker loops) over a stub backend with the real TxPool assembles and seals the blocks."""
     quick = ctx.quick
@@ -406,6 +441,9 @@ def run(ctx):
     # with seeded evidences, and as they are: the scenario whose validator with five delegators is penalised for
     # inactivity (4) and the handler-check scenario (5) must not be disturbed by an earlier expulsion
     scen = [add_evidences(s, rnd) for s in C07.scenarios()] + [C07.scenarios()[i] for i in (0, 4, 5, 6)] + [reorg_scenario()]
+    # the batch size of the import step as a dimension: some histories are imported in batches of 3 and all at once
+    raw = [v["h"] for v in g2.printed if isinstance(v, dict) and v.get("kind") == "B"]
+    scen += [batched(C07.scenarios()[0], 3), batched(C07.scenarios()[6], -1)] + [batched(h, rnd.choice([2, 3, -1])) for h in raw[:2 if quick else 40]]
     ctx.note("programs: %d witnesses, %d scenarios, %d design cex, %d bounded programs, %d simulated histories" % (
         len(wit), len(scen), len(expect), len(small) - len(expect), len(sim)))
     for b in (small[0], sim[0] if sim else None):
@@ -433,6 +471,15 @@ def run(ctx):
     rprogs = [v["h"] for v in gr.printed if isinstance(v, dict) and v.get("kind") == "B" and any(b.get("rg") for b in v["h"])]
     rnd.shuffle(rprogs)
     judge(ctx, rcex[:1] + rprogs[:40 if quick else 600], OPTS_REORG3, "reorg3", {0: "ExecBeforeSwitchBack"}, two_processes=False)
+    mu = ctx.tlc_must("BlockExec", cfg(BE_UPGRADE, "M"), name="M_upgrade", timeout=1200)
+    if mu.violated:
+        raise vlib.Undecided("the upgrade/batch model violates %s: specification error" % mu.violated)
+    un = ctx.tlc_must("BlockExec", cfg(dict(BE_UPGRADE, ParamsPerBlock="FALSE"), "M"), name="M_upgrade_noParamsPerBlock", timeout=1200)
+    if not un.violated:
+        raise vlib.Undecided("the model with parameters held across an import batch has no counterexample")
+    ctx.cov["reorg_model_mutations_detected"].append("ParamsPerBlock=FALSE -> %s" % un.violated)
+    # ---- through a protocol upgrade, imported one block at a time, in batches of 2 and 4, and all at once
+    judge(ctx, [upgrade_scenario(b) for b in (1, 2, 4, -1)], OPTS_UPGRADE, "upgrade", two_processes=False)
     # ---- a block that holds four transfers: skipped transactions of every class, then a fill
     judge(ctx, [tight_scenario()] + tight_programs(rnd, 3 if quick else 60), OPTS_TIGHT, "tight", two_processes=False)
     # the second driver process (cross-process determinism) runs in the thorough tier only
